@@ -6,6 +6,9 @@ import (
 	"fmt"
 	"net"
 	"net/http"
+	"os"
+	"strings"
+	"sync"
 	"time"
 
 	dbm "github.com/tendermint/tm-db"
@@ -47,14 +50,82 @@ type srcHeight struct {
 	batch   []ref.RChange
 }
 
+// ssServer is one in-process JSON-RPC server.  It lives for the whole stage and
+// serves the chain of whatever case currently holds it.
 type ssServer struct {
+	mu    sync.RWMutex
 	chain map[int64]*srcHeight
 	tip   int64
 	ln    net.Listener
 	addr  string
 }
 
+func (s *ssServer) serve(chain map[int64]*srcHeight, tip int64) {
+	s.mu.Lock()
+	s.chain, s.tip = chain, tip
+	s.mu.Unlock()
+}
+
+// ssPair is what one case needs: a primary and a witness.
+type ssPair [2]*ssServer
+
+// ssPool holds the servers of the stage: one pair per concurrent case.  They
+// listen on unix sockets under a scratch directory, so no TCP port is used.
+type ssPool struct {
+	dir   string
+	pairs chan *ssPair
+	all   []*ssServer
+}
+
+func newSSPool(n int) (*ssPool, error) {
+	p := &ssPool{dir: verdict.TmpDir("c08ss-"), pairs: make(chan *ssPair, n)}
+	for i := 0; i < n; i++ {
+		pair := &ssPair{}
+		for j := range pair {
+			s := &ssServer{}
+			if err := s.start(fmt.Sprintf("unix://%s/s%d-%d.sock", p.dir, i, j)); err != nil {
+				p.close()
+				return nil, err
+			}
+			p.all = append(p.all, s)
+			pair[j] = s
+		}
+		p.pairs <- pair
+	}
+	return p, nil
+}
+
+func (p *ssPool) close() {
+	for _, s := range p.all {
+		_ = s.ln.Close()
+	}
+	_ = os.RemoveAll(p.dir)
+}
+
+// the pool of the running stage (set by Run)
+var ssServers *ssPool
+
+// transportFailure tells whether an error of the state provider comes from the
+// plumbing between it and the in-process servers rather than from the provider
+// refusing what honest servers said.
+func transportFailure(err error) bool {
+	if err == nil {
+		return false
+	}
+	m := strings.ToLower(err.Error())
+	for _, s := range []string{"connection refused", "connection reset", "cannot assign requested address", "too many open files", "timeout", "timed out",
+		"deadline exceeded", "broken pipe", "eof", "no such file", "use of closed network connection", "client failed to respond", "no witnesses connected",
+		"post failed", "socket", "dial "} {
+		if strings.Contains(m, s) {
+			return true
+		}
+	}
+	return false
+}
+
 func (s *ssServer) at(p *int64) (*srcHeight, int64, error) {
+	s.mu.RLock()
+	defer s.mu.RUnlock()
 	h := s.tip
 	if p != nil {
 		h = *p
@@ -116,7 +187,7 @@ func (s *ssServer) params(_ *rpctypes.Context, heightPtr *int64) (*ctypes.Result
 	return &ctypes.ResultConsensusParams{BlockHeight: h, ConsensusParams: *types.DefaultConsensusParams()}, nil
 }
 
-func (s *ssServer) start() error {
+func (s *ssServer) start(addr string) error {
 	routes := map[string]*rpcserver.RPCFunc{
 		"commit":           rpcserver.NewRPCFunc(s.commit, "height"),
 		"validators":       rpcserver.NewRPCFunc(s.validators, "height,page,per_page"),
@@ -125,12 +196,12 @@ func (s *ssServer) start() error {
 	mux := http.NewServeMux()
 	rpcserver.RegisterRPCFuncs(mux, routes, log.NewNopLogger())
 	cfg := rpcserver.DefaultConfig()
-	ln, err := rpcserver.Listen("tcp://127.0.0.1:0", cfg)
+	ln, err := rpcserver.Listen(addr, cfg)
 	if err != nil {
 		return err
 	}
 	s.ln = ln
-	s.addr = "http://" + ln.Addr().String()
+	s.addr = addr
 	go func() { _ = rpcserver.Serve(ln, mux, log.NewNopLogger(), cfg) }()
 	return nil
 }
@@ -293,48 +364,55 @@ func ssCase(c *verdict.Ctx, idx int) {
 	}
 	tip := src.state.LastBlockHeight // = H+K
 
-	// ---- two honest RPC servers and the real state provider
-	var addrs []string
-	for i := 0; i < 2; i++ {
-		s := &ssServer{chain: chain, tip: tip}
-		if err := s.start(); err != nil {
-			c.Inconclusive("statesync stage: cannot start an rpc server")
-			return
-		}
-		defer s.ln.Close()
-		addrs = append(addrs, s.addr)
-	}
-	trustH := src.init + r.Int63n(int64(pre)+1)
-	src.extra["trust_height"] = trustH
-	ctx, cancel := context.WithTimeout(context.Background(), 120*time.Second)
-	defer cancel()
-	sp, err := statesync.NewLightClientStateProvider(ctx, chainID, sm.InitStateVersion, src.init, addrs,
-		light.TrustOptions{Period: 100 * 365 * 24 * time.Hour, Height: trustH, Hash: chain[trustH].block.Hash()}, log.NewNopLogger())
-	if err != nil {
-		if ctx.Err() != nil {
-			c.Inconclusive("statesync stage: watchdog while creating the state provider")
-			return
-		}
-		c.Violation("statesync-bootstrap-state-provider-fails", fmt.Sprintf("NewLightClientStateProvider against honest servers failed: %v", err), src.witness(nil))
+	// ---- two honest RPC servers (taken from the stage's pool) and the real state provider
+	if ssServers == nil {
+		c.HarnessError("C08: statesync stage without servers")
 		return
 	}
+	pair := <-ssServers.pairs
+	defer func() {
+		pair[0].serve(nil, 0)
+		pair[1].serve(nil, 0)
+		ssServers.pairs <- pair
+	}()
+	pair[0].serve(chain, tip)
+	pair[1].serve(chain, tip)
+	addrs := []string{pair[0].addr, pair[1].addr}
+	trustH := src.init + r.Int63n(int64(pre)+1)
+	src.extra["trust_height"] = trustH
 	// the syncer's order of calls: AppHash when the snapshot is offered, then State and Commit
 	var boot sm.State
 	var seen *types.Commit
-	perr, pan := safely(func() error {
-		if _, e := sp.AppHash(ctx, uint64(H)); e != nil {
+	var perr error
+	var pan interface{}
+	var ctxErr error
+	for attempt := 0; attempt < 3; attempt++ { // a transport hiccup is retried; it never decides anything
+		ctx, cancel := context.WithTimeout(context.Background(), 120*time.Second)
+		perr, pan = safely(func() error {
+			sp, e := statesync.NewLightClientStateProvider(ctx, chainID, sm.InitStateVersion, src.init, addrs,
+				light.TrustOptions{Period: 100 * 365 * 24 * time.Hour, Height: trustH, Hash: chain[trustH].block.Hash()}, log.NewNopLogger())
+			if e != nil {
+				return e
+			}
+			if _, e = sp.AppHash(ctx, uint64(H)); e != nil {
+				return e
+			}
+			if boot, e = sp.State(ctx, uint64(H)); e != nil {
+				return e
+			}
+			seen, e = sp.Commit(ctx, uint64(H))
 			return e
+		})
+		ctxErr = ctx.Err()
+		cancel()
+		if pan != nil || perr == nil || !(ctxErr != nil || transportFailure(perr)) {
+			break
 		}
-		var e error
-		if boot, e = sp.State(ctx, uint64(H)); e != nil {
-			return e
-		}
-		seen, e = sp.Commit(ctx, uint64(H))
-		return e
-	})
+		c.Count("statesync.transport_retries", 1)
+	}
 	if perr != nil || pan != nil {
-		if ctx.Err() != nil {
-			c.Inconclusive("statesync stage: watchdog in the state provider")
+		if pan == nil && (ctxErr != nil || transportFailure(perr)) {
+			c.Inconclusive("statesync stage: transport failure or watchdog between the state provider and the in-process rpc servers")
 			return
 		}
 		c.Violation("statesync-bootstrap-state-provider-fails", fmt.Sprintf("the state provider failed for snapshot height %d against honest servers: %v %v", H, perr, pan), src.witness(nil))
